@@ -72,6 +72,12 @@ Theorem C19_json_prepass_refuses_only_empty : forall (loads : str -> option valu
   json_prepass loads v = Err e -> e = EValue /\ (v = VDict [] \/ exists s, v = VStr s /\ loads s = Some (VDict [])).
 Proof. exact json_prepass_refuses_only_empty. Qed.
 Print Assumptions C19_json_prepass_refuses_only_empty.
+(* F29 (fixed 4e7f8be): the pre-pass maps text to the SAME text or to a non-text value, never to other text; validating its own
+   textual output again therefore changes nothing (each re-validation used to peel one layer of quotes off "\"\\\"x\\\"\"") *)
+Theorem C19_json_prepass_text_to_text : forall (loads : str -> option value) (s t : str),
+  json_prepass loads (VStr s) = Ok (VStr t) -> t = s /\ json_prepass loads (VStr t) = Ok (VStr t).
+Proof. intros loads s t H. split; [exact (json_prepass_text_to_text loads s t H) | exact (json_prepass_idempotent_on_text loads s t H)]. Qed.
+Print Assumptions C19_json_prepass_text_to_text.
 
 (* pydantic's contract: a clean validator can only make parse return or raise ValidationError ... *)
 Theorem C19_pydantic_contract : forall (A : Type) (r : res A), clean r -> parse_clean (pydantic_wrap r).
